@@ -73,7 +73,7 @@ def corrupt(o):
 
 
 def run(ctx, replay_case=None):
-    consts = {"MaxLen": ctx.pick(2, 3), "CoreLen": ctx.pick(3, 5), "GenLen": ctx.pick(2, 3), "GenCore": ctx.pick(3, 4),
+    consts = {"MaxLen": ctx.pick(2, 4), "CoreLen": ctx.pick(4, 5), "GenLen": ctx.pick(2, 3), "GenCore": ctx.pick(3, 4),
               "Full": not ctx.quick}
     extra = ctx.pick(500, 20000)
     if replay_case is not None:
@@ -137,6 +137,7 @@ def run(ctx, replay_case=None):
     # 5. the sensitivity self-test: corrupted observations must be rejected by the same Trace spec
     post = []
     if bads:
+        bads = bads[:300]       # (the Trace spec keeps at most 400 representatives per run; 10 are reported)
         seen, cc = set(), []
         for b in bads:
             key = (b["obs"]["ctx"], bytes(b["obs"]["s"]))
@@ -151,7 +152,7 @@ def run(ctx, replay_case=None):
           rig.pick_samples([o for o in okobs if o["out"] != o["s"]] or okobs, 3, ctx.seed + 7)]
     for i, o in enumerate(st):
         o["id"] = 900001 + i
-    b2, _ = judge(ctx, "trace_post", post + st)
+    b2, _ = judge(ctx, "trace_post", st + post)
     rejected = {b["obs"]["id"] for b in b2 if b["obs"]["id"] >= 900001}
     ctx.cov["sensitivity_selftest"] = {"corrupted": len(st), "rejected": len(rejected)}
     if len(rejected) < len(st):
